@@ -277,6 +277,51 @@ theorem watcher_applies_after_rejected (aw : Bool) (ops : List Seq.Op)
   · rw [reload_apply S (by rw [hSaw]; exact hr) hc]
     exact ⟨rfl, by simp [hc]⟩
 
+theorem run_append (s : Seq.St) (a b : List Seq.Op) : Seq.run s (a ++ b) = Seq.run (Seq.run s a) b := by
+  simp [Seq.run, List.foldl_append]
+
+/-- **reload_during_notification_not_lost** (either shape).  A trigger that arrives while a listener
+is being notified of the previous reload (callbacks run after the state swap, outside `f.mux`) is a
+reload *after* that one: for any history, `write A; reload; write B; reload` — whatever the first
+reload did with A — ends, if `Reload` goes on with B, with B running.  It is not dropped and not
+merged into the reload in flight, which read the older content. -/
+theorem reload_during_notification_not_lost (aw : Bool) (ops : List Seq.Op) (a b : Content)
+    (hs : (Seq.run { aw := aw } ops).started = true)
+    (hr : reloadable aw (b, (Seq.run { aw := aw } ops).rfile) = true) :
+    (Seq.run { aw := aw } (ops ++ [.wc a, .reload, .wc b, .reload])).applied =
+      (b, (Seq.run { aw := aw } ops).rfile) := by
+  have hsplit : ops ++ [Seq.Op.wc a, .reload, .wc b, .reload] = (ops ++ [.wc a, .reload, .wc b]) ++ [.reload] := by simp
+  generalize hS : Seq.run { aw := aw } ops = S at hs hr
+  -- the state before the last reload: started, files (b, S.rfile)
+  have keeps : ∀ s : Seq.St, (Seq.step s .reload).1.started = s.started ∧ (Seq.step s .reload).1.rfile = s.rfile := by
+    intro s
+    simp only [Seq.step]
+    split
+    · by_cases hc : reloadable s.aw s.file = true ∧ s.file ≠ s.applied
+      · rw [reload_apply s hc.1 hc.2]; exact ⟨rfl, rfl⟩
+      · rw [reload_same s hc]; exact ⟨rfl, rfl⟩
+    · exact ⟨rfl, rfl⟩
+  have hmid : (Seq.run { aw := aw } (ops ++ [.wc a, .reload, .wc b])).started = true ∧
+      (Seq.run { aw := aw } (ops ++ [.wc a, .reload, .wc b])).file = (b, S.rfile) := by
+    rw [run_append, hS]
+    have e : Seq.run S [.wc a, .reload, .wc b] =
+        (Seq.step (Seq.step (Seq.step S (.wc a)).1 .reload).1 (.wc b)).1 := rfl
+    rw [e]
+    obtain ⟨k1, k2⟩ := keeps (Seq.step S (.wc a)).1
+    have w1 : (Seq.step S (.wc a)).1.started = S.started ∧ (Seq.step S (.wc a)).1.rfile = S.rfile := ⟨rfl, rfl⟩
+    generalize (Seq.step (Seq.step S (.wc a)).1 .reload).1 = X2 at k1 k2 ⊢
+    have w3 : (Seq.step X2 (.wc b)).1.started = X2.started ∧ (Seq.step X2 (.wc b)).1.file = (b, X2.rfile) := ⟨rfl, rfl⟩
+    exact ⟨by rw [w3.1, k1, w1.1, hs], by rw [w3.2, k2, w1.2]⟩
+  rw [hsplit]
+  have := watcher_applies_after_rejected aw (ops ++ [.wc a, .reload, .wc b]) hmid.1 (by rw [hmid.2]; exact hr)
+  rw [this.1, hmid.2]
+
+/-- a trigger inside the notification of the reload that applied content 2 finds content 3: it runs, 3 wins,
+the listener is told twice -/
+example : (Seq.run {} [.wc (.ok 1 0), .wr (.ok 1 0), .start 1, .wc (.ok 2 0), .reload, .wc (.ok 3 0), .reload]).applied
+    = (.ok 3 0, .ok 1 0) ∧
+  (Seq.run {} [.wc (.ok 1 0), .wr (.ok 1 0), .start 1, .wc (.ok 2 0), .reload, .wc (.ok 3 0), .reload]).counts = [2] := by decide
+
 /-- rejected, rejected, then acceptable: the third tick applies it and notifies once -/
 example : (Seq.run {} [.wc (.ok 1 0), .wr (.ok 1 0), .start 1, .wc (.bad 0 1), .reload, .wc .gone, .reload,
     .wc (.ok 3 0), .reload]).applied = (.ok 3 0, .ok 1 0) ∧
